@@ -3,6 +3,7 @@ package main
 import (
 	"go/constant"
 	"go/token"
+	"go/types"
 	"strings"
 
 	"golang.org/x/tools/go/ssa"
@@ -529,6 +530,7 @@ func runC04(c *Ctx) {
 		}
 	}
 	c.Floor("R5.agentkey", nAg, 4, "agent List/Remove/Add call sites in agent/ssh")
+	checkEveryCertAdded(c)
 	// every returned certificate stays handed over: within one operation of the agent-key package nothing that removes
 	// identities can run after an identity was added (a removal step inside the add loop deletes what the previous
 	// iterations added, and the run still reports success)
@@ -565,6 +567,139 @@ func runC04(c *Ctx) {
 			}
 		}
 	}
+}
+
+// checkEveryCertAdded: in the certificate step (the agent-key method that ranges over the returned certificates and
+// calls agent.Add), an iteration goes on to the next certificate only after the Add call, or along an edge on which
+// the cast of the element to a certificate failed; and the step reports success only when the range is exhausted.
+func checkEveryCertAdded(c *Ctx) {
+	w := c.w
+	const rule = "R5.agentkey"
+	n := 0
+	for _, fn := range w.RepoFuncs() {
+		if fn.Pkg == nil || fn.Pkg.Pkg.Path() != RepoMod+"/agent/ssh" || fn.Parent() != nil {
+			continue
+		}
+		// the ranged parameter: a slice of ssh.PublicKey
+		var certs *ssa.Parameter
+		for _, p := range fn.Params {
+			if sl, ok := p.Type().Underlying().(*types.Slice); ok && strings.HasSuffix(sl.Elem().String(), "crypto/ssh.PublicKey") {
+				certs = p
+			}
+		}
+		if certs == nil {
+			continue
+		}
+		var adds []ssa.Instruction
+		for _, a := range w.callsInDeep(fn) {
+			am := a.Common()
+			if !am.IsInvoke() || !strings.Contains(am.Method.FullName(), "ssh/agent.") || am.Method.Name() != "Add" {
+				continue
+			}
+			// the instruction of fn that performs it
+			var at ssa.Instruction = a
+			okLift := true
+			for hop := 0; hop < 3 && at.Parent() != fn; hop++ {
+				sites := w.sitesIn(fn, at.Parent())
+				if len(sites) != 1 {
+					okLift = false
+					break
+				}
+				at = sites[0]
+			}
+			if okLift && at.Parent() == fn {
+				adds = append(adds, at)
+			}
+		}
+		if len(adds) == 0 {
+			continue
+		}
+		// the range loop over the parameter: header = block of the index, body = its first successor
+		var header *ssa.BasicBlock
+		for _, b := range fn.Blocks {
+			for _, ins := range b.Instrs {
+				if ia, ok := ins.(*ssa.IndexAddr); ok && ia.X == ssa.Value(certs) && isForwardRangeIndex(ia.Index) {
+					if iv, ok := ia.Index.(ssa.Instruction); ok {
+						header = iv.Block()
+					}
+				}
+			}
+		}
+		if header == nil || len(header.Succs) != 2 {
+			c.Und(rule, shortFn(fn)+"|every certificate is handed to the agent", w.FnPos(fn), "the range over the returned certificates was not recognised")
+			continue
+		}
+		n++
+		c.Saw(fn)
+		body, exit := header.Succs[0], header.Succs[1]
+		isAddBlock := map[*ssa.BasicBlock]bool{}
+		for _, a := range adds {
+			isAddBlock[a.Block()] = true
+		}
+		castFailed := func(p, s *ssa.BasicBlock) bool {
+			for l := range w.factsOnEdge(p, s) {
+				y, isNil, ok := nilTest(l)
+				if !ok {
+					continue
+				}
+				y = throughCell(strip(y))
+				if ex, isEx := y.(*ssa.Extract); isEx && !isNil && ex.Index == 1 {
+					if cv, isCall := ex.Tuple.(*ssa.Call); isCall && strings.HasSuffix(calleeName(cv), "CastSSHPublicKeyToCertificate") {
+						return true
+					}
+				}
+				if isNil && strings.HasSuffix(y.Type().String(), "crypto/ssh.Certificate") {
+					return true
+				}
+			}
+			return false
+		}
+		// skipping: the header is reachable from the body without Add and without a failed cast
+		seen := map[*ssa.BasicBlock]bool{}
+		var skip func(b *ssa.BasicBlock) *ssa.BasicBlock
+		skip = func(b *ssa.BasicBlock) *ssa.BasicBlock {
+			if seen[b] || isAddBlock[b] {
+				return nil
+			}
+			seen[b] = true
+			for _, s := range b.Succs {
+				if castFailed(b, s) {
+					continue
+				}
+				if s == header {
+					return b
+				}
+				if r := skip(s); r != nil {
+					return r
+				}
+			}
+			return nil
+		}
+		from := skip(body)
+		pos := w.FnPos(fn)
+		if from != nil && len(from.Instrs) > 0 {
+			pos = w.Pos(from.Instrs[len(from.Instrs)-1].Pos())
+			for _, ins := range from.Instrs {
+				if ins.Pos().IsValid() {
+					pos = w.Pos(ins.Pos())
+				}
+			}
+		}
+		c.Check(from == nil, rule, shortFn(fn)+"|every certificate is handed to the agent", pos, "an iteration continues only after agent.Add or when the element is not a certificate",
+			"an iteration of the certificate loop can go on to the next element without calling agent.Add although the element is a certificate: returned certificates are silently dropped and the run reports success")
+		// success only once the range is exhausted
+		okEnd := true
+		for _, r := range w.MayBeNilReturns(fn) {
+			if !exit.Dominates(r.Block()) {
+				okEnd = false
+				c.Bad(rule, shortFn(fn)+"|success only after the last certificate", w.Pos(r.Pos()), "a possibly-nil return that the end of the range over the certificates does not dominate: the step can report success before every certificate was handed over")
+			}
+		}
+		if okEnd {
+			c.Ok(rule, shortFn(fn)+"|success only after the last certificate", w.FnPos(fn), "every possibly-nil return is dominated by the exit of the range")
+		}
+	}
+	c.Floor(rule, n, 1, "certificate loops calling agent.Add")
 }
 
 // loopBack: is `later` the same loop's next iteration of an earlier call (reachable only around a back edge)?
